@@ -48,12 +48,12 @@ class W:
         o1, o2 = em.ObjectExp(self.o1), em.ObjectExp(self.o2)
         self.atoms = {
             "a": a, "b": b, "c": c,
-            "1<=2": em.LE(1, 2), "2<=3": em.LE(2, 3), "3<2": em.LT(3, 2), "2<2": em.LT(2, 2),
-            "x<=3": em.LE(x, 3), "x<3": em.LT(x, 3), "x==2": em.Equals(x, 2), "2==2": em.Equals(2, 2),
+            "1<=2": em.LE(1, 2), "2<=3": em.LE(2, 3), "3<2": em.LT(3, 2), "2<2": em.LT(2, 2), "2<=2": em.LE(2, 2), "3<=2": em.LE(3, 2), "2<3": em.LT(2, 3),
+            "x<=3": em.LE(x, 3), "x<3": em.LT(x, 3), "x==2": em.Equals(x, 2), "2==2": em.Equals(2, 2), "2==3": em.Equals(2, 3),
             "g==o1": em.Equals(g, o1), "o1==o2": em.Equals(o1, o2), "o1==o1": em.Equals(o1, o1), "g==g": em.Equals(g, g),
             "true": em.TRUE(), "false": em.FALSE(),
         }
-        self.constant_atoms = {self.atoms[k] for k in ("1<=2", "2<=3", "3<2", "2<2", "2==2", "o1==o2", "o1==o1", "g==g", "true", "false")}
+        self.constant_atoms = {self.atoms[k] for k in ("1<=2", "2<=3", "3<2", "2<2", "2<=2", "3<=2", "2<3", "2==2", "2==3", "o1==o2", "o1==o1", "g==g", "true", "false")}
         self.names = Names()
         for f in (self.fa, self.fb, self.fc, self.fx, self.fg):
             self.names.fl(f)
@@ -267,7 +267,8 @@ def run(ctx):
             add(e, "exh:" + ",".join(tr))
     n_exh = len(exprs)
     # all expressions of size <= 3 over the whole atom pool (every pair of atoms meets under every connective)
-    pool3 = [A[k] for k in ("a", "b", "1<=2", "2<=3", "3<2", "x<=3", "x==2", "g==o1", "o1==o2", "o1==o1", "g==g", "true", "false")]
+    pool3 = [A[k] for k in ("a", "b", "1<=2", "2<=2", "3<2", "2<2", "x<=3", "x==2", "2==2", "g==o1", "o1==o2", "o1==o1",
+                            "g==g", "false")]
     for e in enum_exprs(em, pool3, 3):
         add(e, "exh3:pool")
     n_exh3 = len(exprs) - n_exh
